@@ -593,7 +593,7 @@ pub fn run(cfg: &RunCfg, json_mode: bool) -> Report {
     rep.assumptions = vec![
         "levels are generated with distinct order ids, order.price == level price and quantity sums within u64 (DESIGN §8)".into(),
     ];
-    let n = cfg.cases(300_000, 10_000_000);
+    let n = cfg.cases(2_000_000, 60_000_000);
     rep.absorb(
         if json_mode { "codec_json" } else { "codec_text" },
         explore(cfg, id, n, val, move |v: &Val, st| {
